@@ -543,3 +543,15 @@ func (s *Svc) ResyncConsensus(_ *Empty, _ *Empty) error {
 	return nil
 }
 func (c *Client) ResyncConsensus() error { return c.Call("ResyncConsensus", &empty, &empty) }
+
+// ValidateTx runs the stateless validation a node applies to a tx received from a client or peer
+// (types.Transaction.Validate with the chain id hash of the next block), recovering panics.
+func (s *Svc) ValidateTx(txb *[]byte, r *string) error {
+	*r = s.n.ValidateTx(*txb)
+	return nil
+}
+func (c *Client) ValidateTx(tx []byte) (string, error) {
+	var r string
+	err := c.Call("ValidateTx", &tx, &r)
+	return r, err
+}
